@@ -42,7 +42,7 @@ ASSUMPTIONS = [
     "an exception escaping data_received on a noisy stream makes the run void (C14); on a clean stream it is a violation (promised messages lost)",
     "the absolute clean-stream oracle is used only with candidate lists in which exactly one reader matches the stream's type and configuration",
 ]
-MUST_FIRE = {"quick": ["valid_message_with_empty_payload", "selected_second_candidate", "invalid_withheld", "clean_absolute_checked", "empty_candidate_list", "selection_after_first_chunk", "reconnect_with_same_candidate_sequence", "candidates_as_tuple", "bystander_protocol_instance", "stalled_delivery", "tie_between_candidates", "candidates_built_inline", "chunks_as_reused_bytearray"], "thorough": ["selected_second_candidate", "invalid_withheld", "clean_absolute_checked", "empty_candidate_list", "selection_after_first_chunk"]}
+MUST_FIRE = {"quick": ["valid_message_with_empty_payload", "selected_second_candidate", "invalid_withheld", "clean_absolute_checked", "empty_candidate_list", "selection_after_first_chunk", "reconnect_with_same_candidate_sequence", "candidates_as_tuple", "bystander_protocol_instance", "stalled_delivery", "tie_between_candidates", "candidates_built_inline", "chunks_as_reused_bytearray", "connection_made_again_on_same_protocol"], "thorough": ["selected_second_candidate", "invalid_withheld", "clean_absolute_checked", "empty_candidate_list", "selection_after_first_chunk"]}
 
 
 def _cand_lists(rng, cfg):
@@ -100,6 +100,11 @@ def gen(rng, tier, index):
         sc["reuse"] = {"stream": earlier, "cuts": {"m": "fixed", "k": rng.choice([1, 7, 64, 100000])}}
     if rng.random() < 0.12:
         sc["inline"] = True  # the caller keeps no reference to the candidate readers
+    if kind == "clean_p1" and len(stream["c05"]["readouts"]) >= 2 and rng.random() < 0.3:
+        # lifecycle fault: the same protocol object gets connection_made() again (a protocol factory that hands out one
+        # instance for every connection), placed on a readout boundary of a clean stream - there a design that goes on with
+        # the selected reader and one that detects the reader type again must both forward everything that follows
+        sc["remade"] = {"readout": rng.randint(1, len(stream["c05"]["readouts"]) - 1), "lost_first": rng.random() < 0.5}
     yield sc
 
 
@@ -121,6 +126,22 @@ def wire_of(stream):
     a, _ = hdlc_gen.assemble(stream["c02"]["items"], stream["c02"]["cfg"][0])
     b = b"".join(p1_gen.build(s) for s in stream["c05"]["readouts"])
     return (a + b if stream["order"] == "hp" else b + a), None
+
+
+def _split_at(chunks, boundary):
+    """-> (chunks with a cut at stream offset `boundary`, index of the chunk that starts there or None)"""
+    out, pos, idx = [], 0, None
+    for c in chunks:
+        if pos < boundary < pos + len(c):
+            out.append(c[: boundary - pos])
+            idx = len(out)
+            out.append(c[boundary - pos :])
+        else:
+            if pos == boundary and idx is None:
+                idx = len(out)
+            out.append(c)
+        pos += len(c)
+    return out, idx
 
 
 def make(spec):
@@ -171,6 +192,12 @@ def _execute_once(sc):
     stream = sc["stream"]
     wire, sent = wire_of(stream)
     chunks = fragment.chunks(wire, sc["cuts"])
+    remake_idx = None
+    if sc.get("remade") and stream["kind"] == "clean_p1":
+        raws = [p1_gen.build(s) for s in stream["c05"]["readouts"]]
+        if 1 <= sc["remade"]["readout"] < len(raws):
+            chunks, remake_idx = _split_at(chunks, sum(len(r) for r in raws[: sc["remade"]["readout"]]))
+    remade = []
     # in-domain guard for the clean classes (shrink candidates must not leave the domain)
     clean = stream["kind"] in ("clean_hdlc", "clean_p1")
     if stream["kind"] == "clean_hdlc":
@@ -249,6 +276,12 @@ def _execute_once(sc):
             except Exception:  # noqa: BLE001 - the bystander's own trouble is not judged here
                 pass
             other_pos[0] += step
+        if idx == remake_idx and idx > 0:
+            # the connection ends (or is just replaced) between two readouts and a new one is made on the same protocol object
+            if sc["remade"].get("lost_first"):
+                proto.connection_lost(None)
+            proto.connection_made(_Transport())
+            remade.append(idx)
         arg = chunk
         if chunk_as == "bytearray":
             arg = bytearray(chunk)  # a transport may hand over a bytearray; every candidate must still see all of it
@@ -397,6 +430,8 @@ def _execute_once(sc):
         probes[f"chunks_as_{chunk_as}"] = 1
     if sc.get("inline"):
         probes["candidates_built_inline"] = 1
+    if remade:
+        probes["connection_made_again_on_same_protocol"] = 1
     if reuse_failed:
         void = True
         viol = []
@@ -410,11 +445,11 @@ def _execute_once(sc):
         "digest": prng.digest([len(got), prng.digest([g if isinstance(g, bytes) else _msg_sig(g) for g in got]), [v["sig"] for v in viol], void]),
         "nontrivial": nontrivial,
         "key": prng.digest([sc["cls"], sc["cands"], prng.digest(wire.hex()), sc["cuts"]]),
-        "faults": {f"stream_{stream['kind']}": 1, "fragmentation_cuts": fragment.n_cuts(len(wire), sc["cuts"])},
+        "faults": {f"stream_{stream['kind']}": 1, "fragmentation_cuts": fragment.n_cuts(len(wire), sc["cuts"]), **({"connection_remade_on_same_protocol": 1} if remade else {})},
         "probes": probes,
         "states": states,
         "sim_s": sim_s,
-        "summary": {"class": sc["cls"], "candidates": sc["cands"], "candidates_as": sc.get("cands_as", "list"), "earlier_connection_on_same_sequence": bool(sc.get("reuse")), "stream_kind": stream["kind"], "stream_octets": len(wire), "stream_head_hex": wire[:40].hex(), "chunks": len(chunks), "queue_items": len(got), "virtual_seconds": round(sim_s, 3)},
+        "summary": {"class": sc["cls"], "candidates": sc["cands"], "candidates_as": sc.get("cands_as", "list"), "earlier_connection_on_same_sequence": bool(sc.get("reuse")), "connection_made_again_before_chunk": remade, "stream_kind": stream["kind"], "stream_octets": len(wire), "stream_head_hex": wire[:40].hex(), "chunks": len(chunks), "queue_items": len(got), "virtual_seconds": round(sim_s, 3)},
     }
 
 
@@ -434,6 +469,10 @@ def candidates(sc):
         yield {k: v for k, v in copy.deepcopy(sc).items() if k != "bystander"}
     if sc.get("reuse"):
         yield {k: v for k, v in copy.deepcopy(sc).items() if k != "reuse"}
+    if sc.get("remade"):
+        yield {k: v for k, v in copy.deepcopy(sc).items() if k != "remade"}
+        if sc["remade"].get("lost_first"):
+            yield dict(copy.deepcopy(sc), remade=dict(sc["remade"], lost_first=False))
     if sc.get("cands_as"):
         yield {k: v for k, v in copy.deepcopy(sc).items() if k != "cands_as"}
     for red in shrink.list_reductions(sc["cands"]):
